@@ -226,3 +226,139 @@ for _t in ("uint8", "uint32"):
                       ensures=[("spaced_kmers", ens_spaced)], timeout=20))
 ASSUMPTIONS.append("_create_spaced_kmers: int64 arithmetic on k-mer codes does not overflow (alphabet_length ** k < 2**63 is what makes a KmerAlphabet usable); "
                    "SK is the partial-sum ghost defined by its two recursion equations; the spacing model is strictly increasing and non-negative (checked by __init__)")
+
+
+# ==========================================================================
+# kmeralphabet.pyx::KmerAlphabet._create_continuous_kmers  (rolling computation; boundscheck(False))
+#
+#   W(q) = sum over t < k of A**(k-1-t) * code[q + t]          (A = size of the base alphabet)
+#   contract: kmers[q] == W(q) for every window q although only kmers[0] is computed as that sum and every
+#   later one from its predecessor; AlphabetError iff some code is outside the base alphabet; ValueError iff the
+#   sequence is shorter than k.  k and A are concrete per case (the rolling identity is polynomial in A: with
+#   both symbolic the solvers time out on the non-linear step), the sequence and its length are symbolic.
+
+def _window(g, q):
+    k, A_, C = g["k"], g["asz"], g["C"]
+    total = z3.IntVal(0)
+    for t in range(k):
+        total = total + (A_ ** (k - 1 - t)) * z3.Select(C, q + t)
+    return total
+
+
+def setup_continuous(code_t, k, asz):
+    def setup(I):
+        from pyvc.api import get_class
+        from pyvc.heap import Obj
+        cls = get_class(I, KA, "KmerAlphabet")
+        n = sym_int(I, "n", 0, 2 ** 31 - 2)
+        rm = SymArr("_radix_multiplier", "int64", [k], readonly=True)
+        code = SymArr("seq_code", code_t, [n], readonly=True).view(memview=True)
+        A = I.ctx.assume
+        # representation invariant established by __init__: _radix_multiplier[t] == A**(k-1-t)
+        for t in range(k):
+            A(z3.Select(rm.arr, t) == asz ** (k - 1 - t))
+        # the elements of the (immutable) input are values of its C type
+        from pyvc.core import int_range
+        lo, hi = int_range(code_t)
+        p = z3.Int("p!r")
+        A(z3.ForAll([p], z3.And(z3.Select(code.arr, p) >= lo, z3.Select(code.arr, p) <= hi)))
+        base = SymArr("_base_alph", None, [asz])
+        obj = Obj(cls, {"_k": CV("int", k), "_spacing": None, "_radix_multiplier": rm, "_base_alph": base})
+        g = {"k": k, "n": n, "asz": asz, "C": code.arr, "nk": n - k + 1}
+        I.ghost["ck"] = g
+        return {"args": [obj, code], "ghost": {"n": n}}
+    return setup
+
+
+def inv_continuous(I, env):
+    g = I.ghost["ck"]
+    i = zint(I.unC(env.lookup("i")))
+    K = env.lookup("kmers").arr
+    q, p = z3.Ints("q!c p!c")
+    return z3.And(i >= 1, i <= z3.If(g["nk"] >= 1, g["nk"], 1),
+                  zint(I.unC(env.lookup("prev_kmer"))) == _window(g, i - 1),
+                  z3.ForAll([q], z3.Implies(z3.And(q >= 0, q < i), z3.Select(K, q) == _window(g, q))),
+                  z3.ForAll([p], z3.Implies(z3.And(p >= 0, p < i + g["k"] - 1), z3.Select(g["C"], p) < g["asz"])))
+
+
+def ens_continuous(I, env):
+    g = I.ghost["ck"]
+    res = env.vars["result"]
+    q = I.ctx.fresh_int("q")
+    return [("length", natives.eq(I, res.shape[0], g["nk"])),
+            ("codes", implies(z3.And(q >= 0, q < g["nk"]), z3.Select(res.arr, q) == _window(g, q)))]
+
+
+def bad_code_continuous(I, env):
+    g = I.ghost["ck"]
+    p = z3.Int("p!b")
+    return z3.And(g["n"] >= g["k"], z3.Exists([p], z3.And(p >= 0, p < g["n"], z3.Select(g["C"], p) >= g["asz"])))
+
+
+for _t, _k, _a in (("uint8", 1, 4), ("uint8", 2, 4), ("uint8", 3, 4), ("uint8", 8, 4), ("uint8", 3, 24), ("uint8", 5, 24), ("uint32", 2, 1000), ("uint8", 12, 4)):
+    CASES.append(Case(KA + "::KmerAlphabet._create_continuous_kmers", f"CodeType={_t}, k={_k}, alphabet of {_a}", setup=setup_continuous(_t, _k, _a), overflow=False,
+                      raises={"ValueError": lambda I, env: I.ghost["ck"]["n"] < I.ghost["ck"]["k"], "AlphabetError": bad_code_continuous},
+                      loops={0: {"unroll": _k}, 1: {"invariant": [inv_continuous]}},
+                      ensures=[("continuous_kmers", ens_continuous)], timeout=30))
+ASSUMPTIONS.append("_create_continuous_kmers: proved for the concrete (k, alphabet size) pairs of its cases - nucleotide k = 1, 2, 3, 8, 12, protein (24) k = 3, 5, "
+                   "1000 symbols k = 2 - and all sequences; _radix_multiplier[t] == alphabet_length ** (k-1-t) is the representation invariant set by __init__")
+
+
+# ==========================================================================
+# kmeralphabet.pyx::KmerAlphabet._split  (cdivision(True), boundscheck(False)): positional digits of a k-mer code
+#   contract: for 0 <= code < A**k the k digits d[0..k-1] satisfy 0 <= d[n] < A and sum(d[n] * A**(k-1-n)) == code,
+#   i.e. split is the inverse of the positional sum that create_kmers / fuse compute (k-mer <-> symbols bijection)
+
+def setup_split(k, asz):
+    def setup(I):
+        from pyvc.api import get_class
+        from pyvc.heap import Obj
+        cls = get_class(I, KA, "KmerAlphabet")
+        n = sym_int(I, "n", 0, 2 ** 31 - 2)
+        rm = SymArr("_radix_multiplier", "int64", [k], readonly=True)
+        codes = SymArr("codes", "int64", [n], readonly=True).view(memview=True)
+        A = I.ctx.assume
+        for t in range(k):
+            A(z3.Select(rm.arr, t) == asz ** (k - 1 - t))
+        p = z3.Int("p!r")
+        # precondition (checked by the caller split()): valid k-mer codes
+        A(z3.ForAll([p], z3.Implies(z3.And(p >= 0, p < n), z3.And(z3.Select(codes.arr, p) >= 0, z3.Select(codes.arr, p) < asz ** k))))
+        obj = Obj(cls, {"_k": CV("int", k), "_spacing": None, "_radix_multiplier": rm})
+        g = {"k": k, "n": n, "asz": asz, "C": codes.arr}
+        I.ghost["split"] = g
+        return {"args": [obj, codes], "ghost": {"n": n}}
+    return setup
+
+
+def _digits_ok(g, T, q):
+    row = z3.Select(T, q)
+    total = z3.IntVal(0)
+    conj = []
+    for t in range(g["k"]):
+        d = z3.Select(row, t)
+        conj.append(z3.And(d >= 0, d < g["asz"]))
+        total = total + d * (g["asz"] ** (g["k"] - 1 - t))
+    return z3.And(total == z3.Select(g["C"], q), *conj)
+
+
+def inv_split(I, env):
+    g = I.ghost["split"]
+    i = zint(I.unC(env.lookup("i")))
+    T = env.lookup("split_codes").arr
+    q = z3.Int("q!s")
+    return z3.And(i >= 0, i <= g["n"], z3.ForAll([q], z3.Implies(z3.And(q >= 0, q < i), _digits_ok(g, T, q))))
+
+
+def ens_split(I, env):
+    g = I.ghost["split"]
+    res = env.vars["result"]
+    q = I.ctx.fresh_int("q")
+    return [("shape", natives.conj([natives.eq(I, res.shape[0], g["n"]), natives.eq(I, res.shape[1], g["k"])])),
+            ("digits", implies(z3.And(q >= 0, q < g["n"]), _digits_ok(g, res.arr, q)))]
+
+
+for _k, _a in ((1, 4), (2, 4), (3, 4), (8, 4), (3, 24), (2, 1000)):
+    CASES.append(Case(KA + "::KmerAlphabet._split", f"k={_k}, alphabet of {_a}", setup=setup_split(_k, _a), overflow=False,
+                      loops={0: {"invariant": [inv_split]}, 1: {"unroll": _k}},
+                      ensures=[("split", ens_split)], timeout=30))
+ASSUMPTIONS.append("_split: the same concrete (k, alphabet size) pairs; valid k-mer codes (0 <= code < A**k) are the precondition that split() checks before the call")
